@@ -285,7 +285,15 @@ class NumpyMixin:
             i, j = z3.Int("i!t"), z3.Int("j!t")
             return st.alloc(HArr2(h.kind, h.n1, h.n0, z3.Lambda([i, j], z3.Select(h.data, j, i)), fresh=True))
         if attr == "dtype":
-            return DTypeV(ref, h)
+            d = DTypeV(ref, h)
+            if isinstance(h, HArr):
+                # the concrete dtype is a symbolic identity: arrays of one model kind may still differ in numpy dtype
+                root = self.root(st, ref)
+                ids = st.ghost.get("dtids", {})
+                d.did = ids.get(root.id)
+                if d.did is None:
+                    d.did = z3.Int("dtype!%d" % root.id)
+            return d
         from .values import Bound
         return Bound(ref, Prim("ndarray." + attr))
 
@@ -523,6 +531,7 @@ class DTypeV:
     def __init__(self, ref, h):
         self.ref, self.h = ref, h
         self.tag = "dtype:" + getattr(h, "kind", "struct")
+        self.did = None
 
     @property
     def names(self):
